@@ -436,6 +436,20 @@ Proof.
   destruct I. repeat split; assumption.
 Qed.
 
+(* exclusive ownership: two live tenures never share a physical object - whoever issued them. The client P is
+   arbitrary, in particular the merge of the command streams of any number of goroutines under any scheduler
+   (every command is one atomic step of the pool or an access to an object of the issuing goroutine). *)
+Theorem exclusive_ownership P n :
+  disciplined (f_trace (f_run P n)) = true ->
+  forall ch n0 garbage t u,
+    let ps := p_run P ch n0 garbage n in
+    let d := d_of (f_trace (f_run P n)) d_init in
+    live d t = true -> live d u = true -> p_owner ps t = p_owner ps u -> t = u.
+Proof.
+  intros Hd ch n0 garbage t u ps d. pose proof (simulation P ch n0 garbage n Hd) as I.
+  apply (i_inj _ _ _ I).
+Qed.
+
 (* without the discipline the conclusion fails: a client that reads a field it never wrote sees what an earlier
    user left in the recycled object (borrow; read field 0; output it; stop) *)
 Definition careless : client := fun step reads =>
